@@ -142,6 +142,18 @@ fn grind(cx: &mut Cx, issuer: NodeId, holder: NodeId, verifier: NodeId, key: Arc
 
 fn tamper(cx: &mut Cx, verifier: NodeId, key: Arc<KeyMat>, p: Presentation) {
     let n = p.n;
+    // single-field edits of the signer key and of the commitment key, each right after the same
+    // verifier thread has verified the honest presentation under the unedited keys (whatever it
+    // keeps per key must not outlive a change of one component)
+    { let mut q = p.clone(); q.pk.b += 1; deliver(cx, verifier, q, "signer_key_b:+1".into(), false); }
+    { let mut q = p.clone(); q.pk.b = Integer::from(&q.pk.b * &q.pk.b) % &q.pk.N; deliver(cx, verifier, q, "signer_key_b:squared".into(), false); }
+    { let mut q = p.clone(); q.pk.c += 1; deliver(cx, verifier, q, "signer_key_c:+1".into(), false); }
+    { let mut q = p.clone(); q.pk.N += 2; deliver(cx, verifier, q, "signer_key_N:+2".into(), false); }
+    deliver(cx, verifier, p.clone(), "none:warm_up_before_key_edits".into(), true);
+    { let mut q = p.clone(); q.cpk.N += 2; deliver(cx, verifier, q, "commitment_key_N:+2".into(), false); }
+    if let Some(other) = other_pool_key(key.idx) { let mut q = p.clone(); q.cpk.N = other.pk.N.clone(); deliver(cx, verifier, q, "commitment_key_N:other_issuer".into(), false); }
+    { let mut q = p.clone(); q.cpk.g_bases[0] += 1; deliver(cx, verifier, q, "commitment_key_g0:+1".into(), false); }
+    if let Some(&h0) = p.hidden.first() { if h0 != 0 { let mut q = p.clone(); q.cpk.g_bases[h0] += 1; deliver(cx, verifier, q, "commitment_key_g_hidden:+1".into(), false); } }
     // revealed attributes
     for i in 0..p.revealed.len() {
         { let mut q = p.clone(); q.revealed[i] += 1; deliver(cx, verifier, q, format!("revealed_alter:+1@{i}"), false); }
@@ -157,16 +169,6 @@ fn tamper(cx: &mut Cx, verifier: NodeId, key: Arc<KeyMat>, p: Presentation) {
     if bases_matter { let mut q = p.clone(); q.bases = key.bases2.0[..n].to_vec(); deliver(cx, verifier, q, "misroute_bases".into(), false); }
     { let mut q = p.clone(); q.cpk = key.cpk2.clone(); deliver(cx, verifier, q, "misroute_commitment_key".into(), false); }
     { let mut q = p.clone(); q.cpk.h += 1; deliver(cx, verifier, q, "commitment_key_h:+1".into(), false); }
-    // single-field edits of the signer key and of the commitment key (the same verifier thread has
-    // just verified the honest presentation under the unedited keys)
-    { let mut q = p.clone(); q.pk.b += 1; deliver(cx, verifier, q, "signer_key_b:+1".into(), false); }
-    { let mut q = p.clone(); q.pk.b = Integer::from(&q.pk.b * &q.pk.b) % &q.pk.N; deliver(cx, verifier, q, "signer_key_b:squared".into(), false); }
-    { let mut q = p.clone(); q.pk.c += 1; deliver(cx, verifier, q, "signer_key_c:+1".into(), false); }
-    { let mut q = p.clone(); q.pk.N += 2; deliver(cx, verifier, q, "signer_key_N:+2".into(), false); }
-    { let mut q = p.clone(); q.cpk.N += 2; deliver(cx, verifier, q, "commitment_key_N:+2".into(), false); }
-    if let Some(other) = other_pool_key(key.idx) { let mut q = p.clone(); q.cpk.N = other.pk.N.clone(); deliver(cx, verifier, q, "commitment_key_N:other_issuer".into(), false); }
-    { let mut q = p.clone(); q.cpk.g_bases[0] += 1; deliver(cx, verifier, q, "commitment_key_g0:+1".into(), false); }
-    if let Some(&h0) = p.hidden.first() { if h0 != 0 { let mut q = p.clone(); q.cpk.g_bases[h0] += 1; deliver(cx, verifier, q, "commitment_key_g_hidden:+1".into(), false); } }
     // hidden set and count
     if let Some(extra) = (0..n).find(|i| !p.hidden.contains(i)) { let mut q = p.clone(); q.hidden.push(extra); q.hidden.sort(); deliver(cx, verifier, q, "hidden_set:+1".into(), false); }
     if !p.hidden.is_empty() { let mut q = p.clone(); q.hidden.pop(); deliver(cx, verifier, q, "hidden_set:-1".into(), false); }
